@@ -92,7 +92,7 @@ func vpLiveCoords() int {
 	if vp.Tier() == 0 {
 		return 3
 	}
-	return len(vpCoords)
+	return 4 // corners, a transposed pair; six made the thorough tier overrun its budget
 }
 
 // vpChunk is the model of one live chunk.
